@@ -966,3 +966,76 @@ Theorem C02_seras_clash_refuted :
           |}].
 Proof. exact seras_clash_refuted. Qed.
 
+
+(* ---- round 2 of Proofs/XmlKnownProps.v: Attributes (known property: the decoded map; unknown property: the blob as BinaryString); migrating
+   legacy properties inside the whole-file theorem (legacy name gone; migrated value alone; the explicit value stays when both are present);
+   the recorded exception (Enum.Font items above 45) as a theorem *)
+From RbxVerif Require Import Attr AttrFacts.
+Theorem C02_explicit_value_stays :
+  forall (e : xenv) (vc : vcodec (xe_o e)) (keep : bool) (W : list N) (c : bytes) 
+         (keys : list bytes) (ps ps' : list (bytes * value)) (k : bytes) (v : value) 
+         (canon ser : pdesc) (q : string) (op : migop) (qd qs : pdesc),
+       props_known_back e vc keep W c keys ps ps' ->
+       (forall k2 : bytes, In k2 keys -> exists v2 : value, In (k2, v2) ps) ->
+       (forall k2 : bytes, In k2 keys -> exists r : option (pdesc * pdesc), kdesc e c k2 = Ok r) ->
+       In (k, v) ps ->
+       kdesc e c k = Ok (Some (canon, ser)) ->
+       mig_of ser = Some (q, op) ->
+       find_desc_xml (xe_db e) (S_ c) q = Ok (Some (qd, qs)) ->
+       explicit_b e c keys k q = true ->
+       bfind k ps' = None /\
+       (exists (k2 : bytes) (v2 : value) (canon2 ser2 : pdesc),
+          In (k2, v2) ps /\
+          k2 <> k /\
+          kdesc e c k2 = Ok (Some (canon2, ser2)) /\
+          pd_name canon2 = pd_name qd /\
+          (mig_of ser2 = None ->
+           exists v' : value,
+             bfind (B (pd_name qd)) ps' = Some v' /\
+             value_known_back e vc W (dtype_vt (pd_type ser2)) (dtype_vt (pd_type canon2)) v2 v')).
+Proof. exact explicit_value_stays. Qed.
+
+Theorem C02_norm_known_attributes :
+  forall (o : xoracle) (m : amap) (b : bytes),
+       AttrFacts.wf_amap m = true ->
+       attr_encode m = Ok b -> norm_known o ext_norm 1 33 (VAttributes m) = Ok (VAttributes (norm m)).
+Proof. exact norm_known_attributes. Qed.
+
+Theorem C02_unknown_attributes_back :
+  forall (W : list N) (m : amap) (b : bytes),
+       attr_encode m = Ok b -> value_back W ext_norm (VAttributes m) = VBinaryString b.
+Proof. exact unknown_attributes_back. Qed.
+
+Theorem C02_migration_undefined_refuted :
+  migrate (xe_font e_b) (xe_brick e_b) MigFont (VEnum 46) = None /\
+       thru e_b EIgnoreUnknown DIgnoreUnknown
+         [{|
+            i_ref := 1;
+            i_parent := 0;
+            i_class := B "TextLabel";
+            i_name := B "t";
+            i_props := [(B "Font", VEnum 46)]
+          |}] [1] = Err DE_MIGRATION /\
+       thru e_b EIgnoreUnknown DIgnoreUnknown
+         [{|
+            i_ref := 1;
+            i_parent := 0;
+            i_class := B "TextLabel";
+            i_name := B "t";
+            i_props :=
+              [(B "Font", VEnum 46);
+               (B "FontFace",
+                VFont {| fo_family := B "x"; fo_weight := 400; fo_style := 0; fo_cached := None |})]
+          |}] [1] =
+       Ok
+         [{|
+            i_ref := 1;
+            i_parent := 0;
+            i_class := B "TextLabel";
+            i_name := B "t";
+            i_props :=
+              [(B "FontFace",
+                VFont {| fo_family := B "x"; fo_weight := 400; fo_style := 0; fo_cached := None |})]
+          |}].
+Proof. exact migration_undefined_refuted. Qed.
+
